@@ -8,6 +8,7 @@ package fsx
 import (
 	"bytes"
 	"fmt"
+	"hash/fnv"
 	"io"
 	"io/ioutil"
 	"net/http"
@@ -243,6 +244,21 @@ func (e *Env) Serve(req *http.Request) Resp {
 	sreq, err := doubles.ServerRequest(req)
 	if err != nil {
 		return Resp{Code: -1, PanicVal: "cannot serialise request: " + err.Error()}
+	}
+	// One request in four reaches the handler with its body in another legal
+	// presentation (doubles.BodyShapes); which one is a function of the
+	// request and of the tree it meets, so a replay takes the same path.
+	h := fnv.New32a()
+	fmt.Fprintf(h, "%s %s %d %s", req.Method, req.URL.String(), req.ContentLength, e.cur)
+	if v := h.Sum32(); v%4 == 0 {
+		shape := doubles.BodyShapes[(v/4)%uint32(len(doubles.BodyShapes))]
+		body, rerr := ioutil.ReadAll(sreq.Body)
+		if rerr == nil {
+			doubles.ShapeBody(sreq, body, shape)
+			e.C.Observe("body_shape", req.Method+" "+shape, 1)
+		} else {
+			sreq.Body = ioutil.NopCloser(bytes.NewReader(body))
+		}
 	}
 	return e.ServeServerSide(sreq)
 }
